@@ -48,6 +48,8 @@ pub enum Op {
     LazyBuildInterleaved(u8),
     LazyRemove(u8, u8),
     LazyExecLog,
+    /// a closure that queues its successor, 70 deep: all of them run in this maintain, in order
+    LazyExecChain,
     /// the same closure, queued from a worker thread of a rayon pool (the push has returned
     /// before the next operation starts, so its place in the order is defined)
     LazyExecLogPool,
@@ -121,6 +123,7 @@ enum LazyAct {
     InsertAll(u8, u8, u8, u32),
     Remove(u8, u8),
     Log(u32),
+    Chain(u32, u32),
     Nested(u32),
     QueuesInsert(u32, u8, u8),
     CreateNow(u32),
@@ -613,6 +616,20 @@ impl<'h, A: Kind, B: Kind, C: Kind> Run<'h, A, B, C> {
                     .exec(move |_| sh.lock().unwrap().log.push(n));
                 self.m.queue.push_back(LazyAct::Log(n));
             }
+            Op::LazyExecChain => {
+                let n = self.next_seq();
+                fn link(w: &World, sh: std::sync::Arc<std::sync::Mutex<Shared>>, id: u32, left: u32) {
+                    sh.lock().unwrap().log.push(id);
+                    if left > 0 {
+                        let sh2 = sh.clone();
+                        w.read_resource::<LazyUpdate>().exec(move |w| link(w, sh2, id + 1, left - 1));
+                    }
+                }
+                let sh = self.shared.clone();
+                let base = 100_000 + n * 100;
+                self.w.read_resource::<LazyUpdate>().exec(move |w| link(w, sh, base, 69));
+                self.m.queue.push_back(LazyAct::Chain(base, 69));
+            }
             Op::LazyExecLogPool => {
                 let n = self.next_seq();
                 let sh = self.shared.clone();
@@ -873,6 +890,12 @@ impl<'h, A: Kind, B: Kind, C: Kind> Run<'h, A, B, C> {
                     }
                 }
                 LazyAct::Log(n) => exp_log.push(n),
+                LazyAct::Chain(id, left) => {
+                    exp_log.push(id);
+                    if left > 0 {
+                        self.m.queue.push_back(LazyAct::Chain(id + 1, left - 1));
+                    }
+                }
                 LazyAct::Nested(n) => {
                     exp_log.push(n);
                     self.m.queue.push_back(LazyAct::Log(n + 1000));
@@ -1397,6 +1420,7 @@ impl<'h, A: Kind, B: Kind, C: Kind> Run<'h, A, B, C> {
                     LazyAct::InsertAll(s1, s2, k, _) => (1u8, r(s1), r(s2), *k).hash(&mut hsh),
                     LazyAct::Remove(s, k) => (2u8, r(s), *k).hash(&mut hsh),
                     LazyAct::Log(_) => 3u8.hash(&mut hsh),
+                    LazyAct::Chain(_, left) => (14u8, *left).hash(&mut hsh),
                     LazyAct::Nested(_) => 4u8.hash(&mut hsh),
                     LazyAct::QueuesInsert(_, s, k) => (5u8, r(s), *k).hash(&mut hsh),
                     LazyAct::CreateNow(_) => 6u8.hash(&mut hsh),
@@ -1524,6 +1548,9 @@ impl<'h, A: Kind, B: Kind, C: Kind> Run<'h, A, B, C> {
             v.push(Op::LazyExecLogPool);
             if n >= 2 && self.m.queue.is_empty() {
                 v.push(Op::LazyInsertAllBig);
+            }
+            if self.m.queue.is_empty() {
+                v.push(Op::LazyExecChain);
             }
             if budget >= 1 && self.m.queue.is_empty() {
                 v.push(Op::LazyBuildInterleaved(0));
